@@ -43,6 +43,24 @@ def parse_ok(s):
     return None
 
 
+def digit_relatives(have):
+    """Versions whose components, written in decimal, extend or shorten those of
+    `have` (1.1.0 -> 1.10.0, 1.19.0, 10.1.0 ...): equal as strings up to some
+    point, different as numbers."""
+    out = set()
+    for pos in (0, 1):
+        c = str(have[pos])
+        alts = [int(c + d) for d in "059"]
+        if len(c) > 1:
+            alts.append(int(c[:-1]))
+        for a in alts:
+            w = list(have); w[pos] = a
+            out.add(tuple(w))
+            w2 = list(w); w2[2] = have[2] + 1
+            out.add(tuple(w2))
+    return sorted(out)
+
+
 def part_a(chk, asan, quick):
     exe = os.path.join(chk.scratch, "version_harness")
     chk.cc(exe, [os.path.join(core.VERIF, "drivers", "version_harness.c")], asan,
@@ -54,6 +72,10 @@ def part_a(chk, asan, quick):
         w = tuple(rng.choice([0, 1, 2, 7, rng.randint(0, 10 ** 6)]) for _ in range(3))
         h = tuple(rng.choice([0, 1, 2, 7, w[k], rng.randint(0, 10 ** 6)]) for k in range(3))
         pairs.append(("%d.%d.%d" % w, "%d.%d.%d" % h))
+    for h in [(1, 1, 0), (2, 4, 0), (1, 11, 0), (10, 2, 1)]:
+        for w in digit_relatives(h):
+            pairs.append(("%d.%d.%d" % w, "%d.%d.%d" % h))
+            pairs.append(("%d.%d.%d" % h, "%d.%d.%d" % w))
     for s in MALFORMED + WELLFORMED_EXTRA:
         pairs.append((s, "1.2.3"))
         pairs.append(("1.2.3", s))
@@ -101,6 +123,8 @@ def part_b(chk, asan, quick):
                 w = (lib[0] + dM, lib[1] + dm, p)
                 if min(w) >= 0:
                     cases.append(("%d.%d.%d" % w, compat(w, lib)))
+    for w in digit_relatives(lib):
+        cases.append(("%d.%d.%d" % w, compat(w, lib)))
     cases.append(("%d.0.0" % lib[0], True))
     cases.append(("%d.%d.0" % (lib[0], lib[1] + 100), False))
     for s in MALFORMED:
@@ -242,6 +266,13 @@ def part_c(chk, plain, quick):
                     ev = [] if name == "ovni" else [mc]
                     cases.append({"kind": "version", "requires": [{name: "%d.%d.%d" % w}], "events": ev,
                                   "expect_ok": compat(w, have), "model": name, "want": w, "have": have})
+        for w in digit_relatives(have):
+            cases.append({"kind": "version", "requires": [{name: "%d.%d.%d" % w}], "events": [] if name == "ovni" else [mc],
+                          "expect_ok": compat(w, have), "model": name, "want": w, "have": have})
+        # truncated and decorated forms of the emulator's own version
+        for sfx in ("%d.%d" % have[:2], "%d.%dx" % have[:2], "%d.%d." % have[:2], "%d.%d.%dx.1" % have):
+            cases.append({"kind": "malformed", "requires": [{name: sfx}], "events": [],
+                          "expect_ok": False, "model": name, "want": sfx, "have": have})
         for s in MALFORMED[:12]:
             cases.append({"kind": "malformed", "requires": [{name: s}], "events": [],
                           "expect_ok": False, "model": name, "want": s, "have": have})
